@@ -24,7 +24,7 @@ COMPONENTS = {"real": "whole IPhreeqc library from /repo's working tree (ASan+UB
               "stub": "libc file calls of sandbox files (fopen64/read/write/writev/fclose interposed: capture + injected failures), clock() frozen"}
 ASSUMPTIONS = ["descriptor-level capture equals file content (regular files in a private sandbox directory)",
                "for the dump stream the comparison is between what each sink received during the run (string delta vs bytes written)"]
-REACH_PROBES = ["both_sinks_compared", "dump_compared", "sel_compared", "error_subsequence_checked", "fault_fired", "runs_with_errors"]
+REACH_PROBES = ["runs_after_failed_load", "both_sinks_compared", "dump_compared", "sel_compared", "error_subsequence_checked", "fault_fired", "runs_with_errors"]
 tiers = {"quick": dict(runs=700, budget_s=110, workers=16), "thorough": dict(runs=30000, budget_s=1500, workers=16)}
 
 GLOBAL_SW = ["OutputFileOn", "OutputStringOn", "LogFileOn", "LogStringOn", "ErrorFileOn", "ErrorStringOn", "DumpFileOn", "DumpStringOn", "ErrorOn"]
@@ -90,7 +90,10 @@ def generate(rng, tier, index):
             if rng.chance(25):
                 nm = "c09_so_%d_%d.txt" % (n, r)
             sel.append([n, rng.below(2) if mode >= 2 else 1, rng.below(2) if mode >= 2 else 1, nm])
-        runs.append({"sw": sw, "names": names, "sel": sel, "cur": rng.choice([1, 1, 2, 3, 5, 7]),
+        preload = None
+        if r > 0 and rng.chance(25):
+            preload = rng.choice(["good", "missing", "bad"])
+        runs.append({"sw": sw, "names": names, "sel": sel, "cur": rng.choice([1, 1, 2, 3, 5, 7]), "preload": preload,
                      "input": rng.choice(INPUT_KEYS), "entry": rng.choice(["string", "string", "file", "acc"])})
     plan = {"prop": PROP, "runs": runs, "fault": None}
     if index % 8 == 5:
@@ -105,6 +108,13 @@ def compile_plan(plan, reference=False):
     marks = []
     for ri, run in enumerate(plan["runs"]):
         sw = dict(run["sw"])
+        pl = run.get("preload")
+        if pl == "good":
+            ops.append(call("cpp", "s1", "LoadDatabase", PHREEQC_DAT))
+        elif pl == "missing":
+            ops.append(call("cpp", "s1", "LoadDatabase", "c09_no_such_database.dat"))
+        elif pl == "bad":
+            ops.append(call("cpp", "s1", "LoadDatabaseString", "SOLUTION_MASTER_SPECIES\n H H+ -1 1 1.008\n Q Qq 0 1\nSOLUTION_SPECIES\n H+ = H+\n log_k o.0\n"))
         if reference:
             for k in list(sw):
                 if k.endswith("FileOn"):
@@ -398,7 +408,8 @@ def check_plan(ctx, plan):
     if nontrivial:
         rep.distinct.append(hashlib.sha1(("||".join(dkey) + str(plan.get("fault"))).encode()).hexdigest()[:12])
     rep.count("runs", len(plan["runs"]))
-    rep.sample = {"runs": [{k: r[k] for k in ("input", "entry", "sw", "sel", "cur")} for r in plan["runs"]], "fault": plan.get("fault")}
+    rep.sample = {"runs": [{k: r.get(k) for k in ("input", "entry", "sw", "sel", "cur", "preload")} for r in plan["runs"]], "fault": plan.get("fault")}
+    rep.count("runs_after_failed_load", sum(1 for r in plan["runs"] if r.get("preload") in ("missing", "bad")))
     return rep
 
 
@@ -464,6 +475,10 @@ def shrink_candidates(plan):
         if r["entry"] != "string":
             c = dict(plan)
             c["runs"] = runs[:i] + [dict(r, entry="string")] + runs[i + 1:]
+            yield c
+        if r.get("preload"):
+            c = dict(plan)
+            c["runs"] = runs[:i] + [dict(r, preload=None)] + runs[i + 1:]
             yield c
         for k in list(r["sw"]):
             if r["sw"][k] != (1 if k in ("ErrorOn", "ErrorStringOn") else 0):
